@@ -58,6 +58,7 @@ const (
 	errGarbageCollectCDs        = "cannot garbage collect composed resources that are no longer desired"
 	errApplyXRRefs              = "cannot update composite resource spec.resourceRefs"
 	errApplyXRStatus            = "cannot apply composite resource status"
+	errXRReplaced               = "composite resource was deleted and created again while it was being composed"
 	errAnonymousCD              = "encountered composed resource without required \"" + AnnotationKeyCompositionResourceName + "\" annotation"
 	errUnmarshalDesiredXRStatus = "cannot unmarshal desired composite resource status from RunFunctionResponse"
 	errXRAsStruct               = "cannot encode composite resource to protocol buffer Struct well-known type"
@@ -548,6 +549,14 @@ func (c *FunctionComposer) Compose(ctx context.Context, xr *composite.Unstructur
 		// there is no other resource to apply that might eventually resolve
 		// this issue.
 		return CompositionResult{}, errors.Wrap(err, errApplyXRStatus)
+	}
+
+	// The API server ignores the UID of a patch of the status subresource, and
+	// the patch loaded what is stored now into xr. If that is another object
+	// of the same name, nothing computed for the XR we were asked to compose
+	// (its connection details in particular) may be attributed to it.
+	if xr.GetUID() != u {
+		return CompositionResult{}, errors.New(errXRReplaced)
 	}
 
 	return CompositionResult{ConnectionDetails: d.GetComposite().GetConnectionDetails(), Composite: compositeRes, Composed: resources, Events: events, Conditions: conditions}, nil
